@@ -8,6 +8,9 @@
 //	authdiff grpc   <cases.json>   real grpc.Run on 127.0.0.1:<free port>, raw pb client + metadata
 //	authdiff tlsone <config.json>  ONE configuration through the real net.Run, probed over the wire
 //	                               (run as a child process: a panicking listener goroutine kills it)
+//	authdiff desc   -              the gRPC service descriptor of the tree (unary methods, streams)
+//	authdiff funcs  <cases.json>   encoding/base64 StdEncoding.DecodeString and strings.Split(s, "Basic ") of this
+//	                               toolchain on hex strings (direct tie of the Gallina decoder / splitter)
 package main
 
 import (
@@ -28,16 +31,22 @@ func main() {
 	// The servers log through slog; keep stdout for results only.
 	slog.SetDefault(slog.New(slog.NewTextHandler(io.Discard, nil)))
 	if len(os.Args) < 3 {
-		fmt.Fprintln(os.Stderr, "usage: authdiff rest|grpc|tlsone <file.json>")
+		fmt.Fprintln(os.Stderr, "usage: authdiff rest|grpc|tlsone|funcs|desc <file.json>")
 		os.Exit(64)
+	}
+	out := json.NewEncoder(os.Stdout)
+	if os.Args[1] == "desc" {
+		runDesc(out)
+		return
 	}
 	data, err := os.ReadFile(os.Args[2])
 	if err != nil {
 		fmt.Fprintln(os.Stderr, "authdiff:", err)
 		os.Exit(64)
 	}
-	out := json.NewEncoder(os.Stdout)
 	switch os.Args[1] {
+	case "funcs":
+		runFuncs(data, out)
 	case "rest":
 		runRest(data, out)
 	case "grpc":
